@@ -142,6 +142,8 @@ def _r3(model, res, c):
             if isinstance(node, (ast.Attribute, ast.Name)) and ((isinstance(node, ast.Attribute) and node.attr == 'debug') or
                                                                   (isinstance(node, ast.Name) and node.id == 'debug')):
                 p = m.parent(node)
+                if isinstance(node, ast.Attribute) and isinstance(p, ast.Call) and p.func is node and sa.is_logger_call(model, m, p):
+                    continue            # logger.debug(...): the method of a logging.Logger, not the debug flag
                 ok = False
                 if isinstance(node.ctx, ast.Store):
                     ok = True                           # self.debug = debug
